@@ -265,9 +265,12 @@ where
                 let text = editor.text_mut();
 
                 let tokens = Tokens::new(text);
-                self.process_input::<C, _>(tokens, processor)?;
+                let res = self.process_input::<C, _>(tokens, processor);
 
+                // text was modified when creating tokens, so input must
+                // be cleared even if processing has failed
                 editor.clear();
+                res?;
 
                 self.writer.flush_str(self.prompt)?;
             }
